@@ -27,10 +27,13 @@ import Thanos.Model.ReadPath
                 - = no series;  panic
      (`wrl` only selects whether stores or the proxy remove the replica label — the same specification)
 
-  rp.tsdb <dedup> <wrl> <replicaLabels> <qmint> <qmaxt> <stores>   (C04)   the read path over TSDB-backed stores
+  rp.tsdb <dedup> <wrl> <replicaLabels> <qmint> <qmaxt> <stores> [<frame> <chunkRange>]   (C04)
+                                                          the read path over TSDB-backed stores
      replicaLabels = name,name,… | -
      stores   = ST|ST|…     ST = <ext>#<ser>#<ser>…      ext = labels | -
-                ser   = <labels>@<samples>               labels = k=v,k=v,…     samples = t:v,… | e
+                ser   = <labels>@<chunk>+<chunk>+…       labels = k=v,k=v,…     chunk = t:v,… | e
+     frame, chunkRange: how the harness makes the real store cut frames and head chunks; the model
+                does not read them (frames of one series are concatenated, the chunks are given)
      answer   = S|S|…       S = <labels>@<samples>, ordered by the rendered label set;  - = no series;  panic
 -/
 open Thanos Thanos.Parse
@@ -166,8 +169,8 @@ def parseTStore (s : String) : Option TStore :=
       match splitChar '@' x with
       | [ls, sm] => do
         let ls ← parseLbls ls
-        let sm ← parseReplica sm
-        pure (ls, sm)
+        let chs ← (splitChar '+' sm).mapM parseReplica
+        pure (ls, chs)
       | _ => none
     pure { ext := ext, series := sers }
   | [] => none
@@ -185,6 +188,16 @@ def split : Nat := 120
 
 /-- which `dedupSeriesIterator.Seek` the driver runs: the one of the tree the model follows -/
 def seekFixed : Bool := true
+
+def tsdbOp (d w rl qmint qmaxt stores : String) : String :=
+  match parseBool? d, parseBool? w, parseInt? qmint, parseInt? qmaxt, (splitChar '|' stores).mapM parseTStore with
+  | some d, some _, some qmint, some qmaxt, some sts =>
+    let rl := if rl = "-" then [] else splitChar ',' rl
+    let res := selectTSDB seekFixed d rl qmint qmaxt sts
+    if res.any (fun kv => kv.2.isNone) then "panic" else
+    if res.isEmpty then "-" else
+    joinWith "|" (res.map fun kv => s!"{kv.1}@{showSamples (kv.2.getD [])}")
+  | _, _, _, _, _ => "bad-op"
 
 def handle : List String → String
   | ["dd.run", f, reps, calls] =>
@@ -211,15 +224,8 @@ def handle : List String → String
                     else if rf then s!"{twoDigits kv.1.2}.{kv.1.1}" else s!"{twoDigits kv.1.1}.{kv.1.2}"
         s!"{name}={showSamples (kv.2.getD [])}")
     | _, _, _, _, _, _ => "bad-op"
-  | ["rp.tsdb", d, w, rl, qmint, qmaxt, stores] =>
-    match parseBool? d, parseBool? w, parseInt? qmint, parseInt? qmaxt, (splitChar '|' stores).mapM parseTStore with
-    | some d, some _, some qmint, some qmaxt, some sts =>
-      let rl := if rl = "-" then [] else splitChar ',' rl
-      let res := selectTSDB seekFixed d rl qmint qmaxt sts
-      if res.any (fun kv => kv.2.isNone) then "panic" else
-      if res.isEmpty then "-" else
-      joinWith "|" (res.map fun kv => s!"{kv.1}@{showSamples (kv.2.getD [])}")
-    | _, _, _, _, _ => "bad-op"
+  | ["rp.tsdb", d, w, rl, qmint, qmaxt, stores] => tsdbOp d w rl qmint qmaxt stores
+  | ["rp.tsdb", d, w, rl, qmint, qmaxt, stores, _, _] => tsdbOp d w rl qmint qmaxt stores
   | _ => "bad-op"
 
 end Thanos.Driver.Dedup
